@@ -71,6 +71,8 @@ def specials():
     S['deep-if'] = 'char c;\nvoid main() { ' + 'if (c) ' * 200 + 'c = 1; }\n'; S['long-expr'] = 'char c;\nvoid main() { c = ' + ' + '.join(['c'] * 400) + '; }\n'; S['long-line'] = 'char ' + ', '.join('v%d' % k for k in range(2000)) + ';\nvoid main() {}\n'
     S['many-locals'] = 'void main() { ' + ' '.join('char l%d;' % k for k in range(300)) + ' }\n'; S['unterminated-comment'] = 'char a; /* never closed\nvoid main() {}\n'; S['unterminated-string'] = 'const char *s = "abc;\nvoid main() {}\n'
     S['unterminated-char'] = "char c;\nvoid main() { c = 'a; }\n"; S['empty-char'] = "char c;\nvoid main() { c = ''; }\n"; S['crlf'] = 'char a;\r\nvoid main() { a = 1; }\r\n'; S['splice-eof'] = 'char a; \\\n'; S['only-splice'] = '\\\n'
+    S['err-then-splice-eof/cpp'] = 'char a;\n#error x \\\n'; S['err-then-splice-eof/syntax'] = 'char a;\nchar broken = ; \\\n'; S['err-then-splice-eof/if'] = 'char a;\n#if NOPE \\\n'
+    S['err-no-newline-eof'] = 'char a;\nchar broken = ;'; S['err-last-line'] = 'char a;\nchar broken = ;\n'
     S['zero-array'] = 'char a[0];\nvoid main() {}\n'; S['neg-array'] = 'char a[-1];\nvoid main() {}\n'; S['huge-array'] = 'char a[2000000000];\nvoid main() {}\n'; S['init-too-long'] = 'const char a[2] = {1,2,3};\nvoid main() {}\n'
     S['dup-label'] = 'void main() { l: X = 1; l: X = 2; goto l; }\n'; S['goto-undefined'] = 'void main() { goto nowhere; }\n'; S['break-outside'] = 'void main() { break; }\n'; S['continue-outside'] = 'void main() { continue; }\n'
     S['case-dup'] = 'char c;\nvoid main() { switch (c) { case 1: c = 2; case 1: c = 3; } }\n'; S['csleep-1'] = 'void main() { csleep(1); }\n'; S['csleep-neg'] = 'void main() { csleep(-3); }\n'; S['asm-neg'] = 'void main() { asm("NOP", -1); }\n'
@@ -122,8 +124,9 @@ def run(tier):
         if c.status in ('ok', 'err'):
             if c.status == 'err' and c.err and c.err.get('kind') in ('Syntax', 'Compiler'):
                 # the location must lie inside the input
-                nlines = srcs[rid].count(b'\n' if isinstance(srcs[rid], bytes) else '\n') + 1
-                if not (0 <= c.err.get('line', 0) <= nlines + 1) and c.err.get('filename') in ('stdin',):
+                txt = srcs[rid]; nl = b'\n' if isinstance(txt, bytes) else '\n'
+                nlines = txt.count(nl) + (0 if txt.endswith(nl) or len(txt) == 0 else 1)
+                if not (0 <= c.err.get('line', 0) <= max(nlines, 1)) and c.err.get('filename') in ('stdin',):
                     rep.violation('location:' + rid, 'input %s: error located on line %s of a %d-line input' % (rid, c.err.get('line'), nlines), dict(kind='total', source=srcs[rid] if isinstance(srcs[rid], str) else srcs[rid].decode('latin1'), got=c.err))
             continue
         locs['%s @ %s' % ((c.msg or c.status)[:70], (c.loc or '').replace('/repo/', ''))] += 1
